@@ -27,13 +27,16 @@ class Perturb:
 
     TOOL = 3
 
-    def __init__(self, seed, p_sleep=0.25, max_sleep=0.0004, lines=False, p_line=0.02):
+    def __init__(self, seed, p_sleep=0.25, max_sleep=0.0004, lines=False, p_line=0.02, p_long=0.0, max_long=0.02):
         self.rng = random.Random(seed)
         self.lock = threading.Lock()
         self.p_sleep = p_sleep
         self.max_sleep = max_sleep
         self.lines = lines
         self.p_line = p_line
+        self.p_long = p_long
+        self.max_long = max_long
+        self.long_sleeps = 0
         self.injected = 0
         self.line_events = 0
         self._old_interval = None
@@ -43,7 +46,12 @@ class Perturb:
         with self.lock:
             r = self.rng.random()
             d = self.rng.random() * self.max_sleep
-        if r < self.p_sleep:
+        if r < self.p_long:
+            # rare long stall: one thread is descheduled for many message hand-offs of the others
+            self.injected += 1
+            self.long_sleeps += 1
+            time.sleep(d / self.max_sleep * self.max_long)
+        elif r < self.p_sleep:
             self.injected += 1
             time.sleep(d)
         elif r < self.p_sleep * 2:
